@@ -10,13 +10,16 @@ Import ListNotations.
 Require Import Vault Row Table Grid Tableabs Tablexml Tablechk TableB TableBabs.
 Local Open Scope Z_scope.
 
+(* what a step of a history was: a step of the layer-B model | one of rstrip / optimize_width / transpose (TableBx: the private
+   state afterwards is that of a fresh parse) | an operation outside the model *)
+Inductive cop := CModel (o : bop) | CXform | COpaque.
 Inductive cdump := CD (tm cm : list Z) (tc : list (nat * rwrap)) (cc : list (nat * Z)).
 Definition mkb (x : xtable) (d : cdump) : bstate :=
   let '(CD tm cm tc cc) := d in {| ax := to_tstate x; tmapB := tm; cmapB := cm; tcache := tc; ccache := cc |}.
 
 Inductive obs2 := Obs2
   (pre : xtable) (pred : cdump)                 (* before the step *)
-  (o : option bop)                              (* None = an operation outside the modelled alphabet (rstrip, transpose, ...): no model step *)
+  (o : cop)
   (post : xtable) (postd : cdump) (raised : bool) (out : bans)     (* the live object right after the step; answer of a read step *)
   (twin : xtable) (twin_raised : bool) (twin_out : bans)            (* the same call on Element.from_tag(pre.serialize()) *)
   (live fresh : list (bread * bans))            (* observation reads on the live object / on a fresh parse of post *)
@@ -89,15 +92,16 @@ Definition chk_c02 (vcl : Z -> Z) (ob : obs2) : nat :=
     | S k => (31 + k)%nat
     | O =>
       if raised then 0%nat
-      else if negb (match o with Some (BRead q) => gans_eqb vcl (gb_read g q) (proj out) | _ => true end && reads_spec vcl g live) then 4%nat
+      else if negb (match o with CModel (BRead q) => gans_eqb vcl (gb_read g q) (proj out) | _ => true end && reads_spec vcl g live) then 4%nat
       else if negb (bans_eqb out tout && reads_eqb live fresh) then 6%nat
       else if negb (match reload with
                     | None => true
                     | Some (x, rl) => in_fragment x && tstate_eqb (to_tstate x) (to_tstate post) && reads_eqb live rl end) then 7%nat
       else
         match o with
-        | None => 0%nat
-        | Some o =>
+        | COpaque => 0%nat
+        | CXform => if bstate_eqb bpost (TableB.fresh (to_tstate post)) then 0%nat else 9%nat
+        | CModel o =>
         let want := match o with
                     | BMut m => g_step (abs_t (to_tstate pre)) m
                     | BRead _ => abs_t (to_tstate pre)
